@@ -291,6 +291,20 @@ func checkC12ID(c IDCase) Outcome {
 		if v, _ := Valid1(bad); v {
 			return fail(key, "exception id accepted outside 'license WITH exception': ValidateLicenses({%q}) = valid", bad)
 		}
+		if r := Extract(bad); !r.IsErr {
+			return fail(key, "exception id accepted outside 'license WITH exception': ExtractLicenses(%q) = %q without error", bad, r.Licenses)
+		}
+		if r := Satisfies(bad, []string{"MIT"}); !r.IsErr {
+			return fail(key, "exception id accepted outside 'license WITH exception': Satisfies(%q, {MIT}) = %s", bad, r)
+		}
+	}
+	for _, list := range [][]string{{c.ID}, {"MIT", c.ID}, {c.ID, "MIT"}, {"MIT", strings.ToLower(c.ID)}} {
+		if r := Satisfies("MIT", list); !r.IsErr {
+			return fail(key, "exception id accepted as an allowed-list entry: Satisfies(\"MIT\", %q) = %s", list, r)
+		}
+	}
+	if r := Satisfies("MIT WITH "+c.ID, []string{"MIT WITH " + c.ID}); !r.OK || r.IsErr {
+		return fail(key, "Satisfies(%q, {same}) = %s", "MIT WITH "+c.ID, r)
 	}
 	return pass()
 }
